@@ -71,7 +71,7 @@ def verify(mid):
         # existing tests: demo files moved aside
         aside = []
         for p in placed:
-            if p.endswith("_test.go"):
+            if p.endswith("_test.go") and os.path.exists(os.path.join(wt, p)):
                 os.rename(os.path.join(wt, p), os.path.join(wt, p + ".aside"))
                 aside.append(p)
         rc, out = sh("go test -vet=off -count=1 ./internal/...", cwd=wt, timeout=3000)
